@@ -8,7 +8,7 @@ use crate::{
 use bumpalo::Bump;
 use codespan_reporting::term::{self, Config};
 use laythe_core::{
-  hooks::GcHooks, module::{Import, ImportError, Module, ModuleInsertError, Package}, object::{Class, Fun, LyStr}, Allocator, ObjRef, Ref
+  constants::SELF, hooks::GcHooks, module::{Import, ImportError, Module, ModuleInsertError, Package}, object::{Class, Fun, LyStr}, Allocator, ObjRef, Ref
 };
 use std::path::PathBuf;
 
@@ -98,12 +98,22 @@ impl Vm {
     hooks.push_root(module_class);
 
     let module = hooks.manage(Module::new(&hooks, module_class, path, id));
-    hooks.push_root(module);
+    hooks.pop_roots(1);
 
-    let package = hooks.manage(Package::new(name, module));
-    hooks.pop_roots(2);
+    module
+  }
 
-    self.packages.insert(name, package);
+  /// Create the root module of the `self` package. This is the only
+  /// user module that is registered as a package, every module it
+  /// imports lives in the module tree below it
+  pub(super) fn main_module(&mut self, path: &str) -> Ref<Module> {
+    let module = self.module(SELF, path);
+    self.push_root(module);
+
+    let package = self.manage(Package::new(module.name(), module));
+    self.pop_roots(1);
+
+    self.add_package(package);
     module
   }
 
